@@ -125,7 +125,7 @@ pub fn run(ctx: &Ctx) -> Report {
          non-trivial = a request matched >=2 rules of equal rank with different effects; distinct by case hash",
     );
     rep.assume("sampling disabled (the statement excludes it); hash-map iteration order cannot be driven directly: it is re-seeded by every router rebuild and the match order is permuted explicitly");
-    rep.add(run_part(ctx, "orders", ctx.cases(20_000, 800_000), strategy, check, &[]));
+    rep.add(run_part(ctx, "orders", ctx.cases(40_000, 1_500_000), strategy, check, &[]));
     rep
 }
 
